@@ -5,6 +5,10 @@ cd "$(dirname "$0")"
 mkdir -p build evidence
 for f in spec/*.tla; do
   (cd spec && tla-sany "$(basename $f)" > ../build/sany_$(basename $f).log 2>&1) || { cat build/sany_$(basename $f).log; exit 1; }
+  # tla-sany exits 0 on semantic errors: look at what it printed
+  if grep -q -E "Semantic errors|Parse Error|Fatal errors|Could not find module|\*\*\* Errors" build/sany_$(basename $f).log; then
+    echo "specification $f does not parse:"; grep -A6 -E "Semantic errors|Parse Error|Fatal errors|\*\*\* Errors" build/sany_$(basename $f).log | head -20; exit 1
+  fi
 done
 /venv/bin/python -c "import sys; sys.path.insert(0,'.'); from harness.common import use_repo; y=use_repo(); print('yaml from', y.__file__, 'libyaml', y.__with_libyaml__)"
 echo setup ok
